@@ -1,10 +1,16 @@
-"""C22 -- see harness/subj.py (check_replay, oracle_replay, run_replay) and
-coq/theories/Props/C22.v.  The ReplaySubject is created on a real VirtualTimeScheduler whose
-clock the history controls (('adv', d) = scheduler.sleep(d)); the driver drains the scheduler
-with VirtualTimeScheduler.start() after every top-level call, so every queued
-ScheduledObserver.run action executes at the current instant in FIFO order.  K1
-correspondence against Subjects/Replay.v + independent oracle (retained values computed from
-the history: last buffer_size values whose age at subscription is <= window)."""
+"""C22 -- see harness/subj.py (check_replay, oracle_replay, run_replay, run_replay_sync) and
+coq/theories/Props/C22.v.  Two scheduler modes, both compared with Subjects/ReplaySched.v:
+ (a) the DEFAULT scheduler (CurrentThreadScheduler trampoline): nothing is drained by the driver;
+     a ScheduledObserver drain scheduled from a top-level call runs inline -- between the
+     per-observer steps of the emission -- and one scheduled from inside an observer callback is
+     queued; exercised with re-entrant call trees (observers emitting / completing / failing /
+     unsubscribing / subscribing / disposing from inside their callbacks), exhaustively for two
+     live subscribers;
+ (b) a real VirtualTimeScheduler whose clock the history controls (('adv', d) = scheduler.sleep(d)),
+     drained by the driver with VirtualTimeScheduler.start() after every top-level call.
+Independent oracle: per subscriber, what it received is a prefix of [retained values at its
+subscription (last buffer_size values with age <= window), terminal if any] ++ [later
+notifications in call order], and all of it unless it unsubscribed."""
 import subj
 
 
